@@ -8,6 +8,7 @@ REGISTRY = {
     'C10': ('checks.c10', 'check_c10'),
     'C11': ('checks.c11', 'check_c11'),
     'C12': ('checks.c12', 'check_c12'),
+    'C13': ('checks.c13', 'check_c13'),
 }
 
 
